@@ -40,3 +40,19 @@ def run(ctx):
             npos += r["summary"]["counts"].get("positions", 0)
     ctx.cov["evaluations"] += npos
     ctx.cov["steps"].append({"step": "incremental-vs-rebuilt hash sweep", "positions": npos})
+    # layer S: the incremental scheme itself (piece hash toggled square by square while a move is applied, side /
+    # en-passant / rights keys folded in when the hash is read) equals the from-scratch hash in every state of the
+    # game state machine from the castling-, en-passant- and promotion-rich roots (spec/HashSys.tla)
+    import os
+    from boardchecks import write_sel
+    sel = write_sel(ctx, root_indices(tags=["castle", "ep", "promo", "check"]), "hashsys")
+    rs = ctx.tlc("HashSysMC", "HashSysMC.cfg", env={"VERIF_DEPTH": 2 if ctx.tier == "quick" else 3, "VERIF_ROOTSEL": sel, "VERIF_KEYS": ctx.keys()},
+                 workers=NCPU, timeout=3000, name="hashsys")
+    if rs["violated"]:
+        ctx.violation("layer-S-model: " + rs["violated"][0][:120], {"tlc": rs["violated"][:3]}, {"kind": "tlc", "module": "HashSysMC", "cfg": "HashSysMC.cfg"})
+    elif rs["errors"]:
+        raise ToolError("HashSysMC failed: %s" % rs["errors"][:3])
+    ctx.cov["states"] += rs["distinct"]
+    ctx.cov["transitions"] += rs["generated"]
+    ctx.cov["steps"].append({"step": "layer S model check (incremental hash = from-scratch hash)", "distinct": rs["distinct"]})
+    os.remove(rs["out_path"])
